@@ -339,7 +339,7 @@ func (r *Run) Finish() {
 	evals, dist := r.evals, len(r.distinct)
 	r.mu.Unlock()
 
-	if r.ReplayFile == "" {
+	if r.ReplayFile == "" && os.Getenv("VERIF_NO_EVIDENCE") == "" {
 		dir := filepath.Join(r.root, "evidence")
 		os.MkdirAll(dir, 0o755)
 		b, err := json.MarshalIndent(ev, "", " ")
